@@ -175,6 +175,16 @@ pub fn gen(seed: u64, n: usize, _tier: &str) -> Vec<Case> {
         dump_ops(1, &mut ops);
         cases.push(Case { id: "fix-0".to_string(), ops, outs: vec![] });
     }
+    // patterns and keys that are not UTF-8: KEYS matches bytes (17322e9; it matched the lossy text, where
+    // every invalid byte is the same character and '?' takes a whole multi-byte character)
+    {
+        let mut ops = vec![conn_op(1)];
+        for k in [&b"\xfeabc"[..], b"\xffabc", b"h\xc3\xa9llo", b"hello", b"\xc3", b"a\x80b", b"a\x81b"] { ops.push(cmd_op(1, &[b"SET", k, b"v"])); }
+        for p in [&b"\xff*"[..], b"\xfe*", b"*abc", b"h?llo", b"h??llo", b"h[\xc3]?llo", b"a[\x80-\x80]b", b"a[^\x80]b", b"a?b", b"\xc3*", b"?", b"*\xa9*", b"[\xfe-\xff]abc", b"\\\xfeabc"] {
+            ops.push(cmd_op(1, &[b"KEYS", p]));
+        }
+        cases.push(Case { id: "glob-bytes-0".to_string(), ops, outs: vec![] });
+    }
     for id in 0..n {
         let mut ops = vec![conn_op(1)];
         if WITH_OTHER_TYPES {
